@@ -46,10 +46,10 @@ def tlc_eval(progs, wd, tag, devs=(), shards=None, timeout=1200):
     return out, states
 
 
-def goja_run(binp, progs, wd, tag, timeout=1200):
+def goja_run(binp, progs, wd, tag, timeout=1200, variant="base"):
     sp = os.path.join(wd, "%s-srcs.json" % tag)
     with open(sp, "w") as f:
-        json.dump([{"id": p["id"], "gen": p["gen"], "src": mjgen.print_js(p)} for p in progs], f)
+        json.dump([{"id": p["id"], "gen": p["gen"], "src": mjgen.print_js(p, variant=variant)} for p in progs], f)
     op = os.path.join(wd, "%s-goja.ndjson" % tag)
     r = subprocess.run([binp, "-in", sp, "-out", op, "-threads", str(NCPU)], stdout=subprocess.PIPE, stderr=subprocess.PIPE,
                        text=True, timeout=timeout)
